@@ -8,6 +8,12 @@ import re
 from vlib import common, gen, genval, chargeenv as CE, structures
 
 
+def qlit(x):
+    import fractions
+    fr = fractions.Fraction(str(x))
+    return f"({fr.numerator} # {fr.denominator})"
+
+
 def hh(q, pk, ph):
     x = q * (pk - ph)
     if x > 300:
@@ -35,7 +41,7 @@ def gen_case(rng):
         mp = rng.choice([3.8, 4.5, 6.5, 9.0, 10.0, 10.5, 12.5, 8.0, 3.2])
         pk = round(mp + rng.uniform(-4, 4), rng.choice([1, 2, 6]))
         gs.append((q, pk, mp, rng.random() > 0.12))
-    grid = rng.choice([(0.0, 14.0, 1.0), (0.0, 14.0, 0.5), (2.0, 9.0, 0.25), (3.0, 3.0, 1.0), (0.0, 1.0, 0.125), (-2.0, 16.0, 3.0)])
+    grid = rng.choice([(0.0, 14.0, 1.0), (0.0, 14.0, 0.5), (2.0, 9.0, 0.25), (3.0, 3.0, 1.0), (0.0, 1.0, 0.125), (-2.0, 16.0, 3.0), (0.0, 14.0, 0.1), (1.1, 2.3, 0.3)])
     lo = rng.choice([0.0, 0.0, 2.0, -1.0, 5.5])
     hi = lo + rng.choice([14.0, 8.0, 3.0, 0.5])
     prec = rng.choice([1e-4, 1e-4, 1e-2, 1e-6, 0.5])
@@ -113,7 +119,8 @@ def run(chk: common.Check):
         gl = CE.coq_list([CE.coq_grp(g) for g in groups])
         fx = genval.fhex
         exprs.append(f"(let N := NumFlT {p10} [] in let gs := {gl} in "
-                     f"match @make_grid float N 2000 {fx(grid[0])} {fx(grid[1])} {fx(grid[2])} with None => [] | Some grid => "
+                     f"match Grid.make_grid 5000 {qlit(grid[0])} {qlit(grid[1])} {qlit(grid[2])} with None => [] | Some gridq => "
+                     f"let grid := map (fun q => let r := Qred q in flit (Qnum r) (Zpos (Qden r))) gridq in "
                      f"flat_map (fun r => let '(a, b, c) := r in [fout a; fout b; fout c]) (@charge_profile float N gs grid) end ++ "
                      f"(let '(pf, pu) := @get_pi float N gs {fx(win[0])} {fx(win[1])} {fx(prec)} 200 in "
                      f"[match pf with Some x => fout x | None => (9,9,9)%Z end; match pu with Some x => fout x | None => (9,9,9)%Z end]))")
@@ -144,7 +151,7 @@ def run(chk: common.Check):
                     found.append((f"pI-{'swapped' if sw else 'not-root'}:{name}",
                                   f"{name} pI = {val} but the {name} charge curve changes sign at {r} (window {win}, precision {prec}, groups {gs})",
                                   {"groups": gs, "window": win, "precision": prec, "impl_pI": list(pis), "root": r}))
-    pre = ("From Coq Require Import List ZArith PrimFloat.\nFrom V Require Import Num FloatIO GroupGen Charge.\nImport ListNotations.\n"
+    pre = ("From Coq Require Import List ZArith QArith PrimFloat.\nFrom V Require Import Num FloatIO GroupGen Charge Grid.\nImport ListNotations.\n"
            "Open Scope float_scope.\n")
     res = common.coq_eval("c09", pre, exprs, shard=10)
     dis = []
